@@ -210,7 +210,7 @@ func (sc *Scenario) Describe() []string {
 		}
 	}
 	for i, c := range sc.Conns {
-		out = append(out, fmt.Sprintf("conn%d: dial=%v cut=%d/%d lat=%v caps=%v failwrite=%d accepterrs=%d", i, c.DialAt, c.Cut, c.CutKind, c.Lat, clipInts(c.SrvCaps, 8), c.SrvFaults.FailWriteAt, c.AcceptErrs))
+		out = append(out, fmt.Sprintf("conn%d: dial=%v cut=%d/%d lat=%v caps=%v failwrite=%d blockwrite=%d/%v accepterrs=%d", i, c.DialAt, c.Cut, c.CutKind, c.Lat, clipInts(c.SrvCaps, 8), c.SrvFaults.FailWriteAt, c.SrvFaults.BlockWriteAt, c.SrvFaults.BlockFor, c.AcceptErrs))
 		for j, s := range c.Steps {
 			out = append(out, fmt.Sprintf("  step%d: %s", j, s))
 		}
